@@ -6,12 +6,14 @@ from sim.engine import Result, Abandon, fp
 from sim.semrun import Sim, TICK, materialise
 from sim.checks import common
 
+from sismic import exceptions as sx
+
 ID = 'C05'
 LEVEL = 'exploration'
 BUDGET = {'quick': 20, 'thorough': 240}
 STREAM_ORDER = ['ops', 'guards', 'mat', 'chart', 'cfg']
 RULE = ('well-formed chart drawn per run whose code sends events (with and without delay); the seeded scheduler interleaves 1-3 logical '
-        'clients calling queue() with delays from {none,0,1,2,2,5} (ties on purpose), the statechart own sends, clock moves (0, exactly to the '
+        'clients calling queue() - an Event instance, a name with keyword parameters, or both in one call - with delays from {none,0,1,2,2,5} (ties on purpose), the statechart own sends, clock moves (0, exactly to the '
         'next due time, one tick short of it, far beyond) and execute_once; a two-queue reference model runs in lock-step and the recorded '
         'history is checked at the end after a drain (every uid consumed exactly once, never before its due time); non-trivial = a '
         'consuming step taken while >= 2 events were pending; distinct = distinct (chart, pending-queue snapshot relative to the step time)')
@@ -53,6 +55,8 @@ def run(ch, tier):
         if r.exc is not None:
             if r.sel is not None and r.sel.err and type(r.exc).__name__ == r.sel.err:
                 return r
+            if not isinstance(r.exc, sx.SismicError):
+                raise r.exc         # not an error the statechart can cause: reported as library-exception
             raise Abandon('other: unexpected %s' % r.exc_name())
         ctx = dict(chart=sp.describe(), step=r.k, time=float(r.T), history=hist[-12:],
                    model_internal=[(float(a), u, nm) for a, _, u, nm in sim.q.internal][:6],
@@ -101,7 +105,7 @@ def run(ch, tier):
     if res.violation:
         return res
     for _ in range(n):
-        op = ops.weighted([('step', 5), ('queue', 5), ('advance', 3)])
+        op = ops.weighted([('step', 5), ('queue', 5), ('advance', 3), ('queue2', 1)])
         if op == 'queue':
             d = ops.pick([None, None, 0, 1, 2, 2, 5])
             client = ops.choice(3)
@@ -109,6 +113,12 @@ def run(ch, tier):
             hist.append(('queue', 'client%d' % client, uid, d, float(sim.lastT)))
             if d:
                 res.stats['delayed_external'] += 1
+        elif op == 'queue2':
+            d1, d2 = ops.pick([None, 0, 1, 2]), ops.pick([None, 0, 1, 2])
+            n1, n2 = ops.pick(names), ops.pick(names)
+            u1, u2 = sim.queue_pair(n1, d1, n2, d2, ops.flag(1, 2))
+            hist.append(('queue', 'one call, two events', (u1, d1), (u2, d2), float(sim.lastT)))
+            res.stats['calls_queueing_an_instance_and_a_name_together'] += 1
         elif op == 'advance':
             dues = sorted(x[0] for q in (sim.q.internal, sim.q.external) for x in q if x[0] > sim.now())
             kind = ops.weighted([('one', 2), ('zero', 1), ('to_next_due', 3), ('short_of_next_due', 2), ('beyond', 1)])
